@@ -4,6 +4,7 @@ package netty
 
 import (
 	"context"
+	"strconv"
 	"sync/atomic"
 )
 
@@ -100,4 +101,10 @@ func verifYield(point string, enabled func() bool) {
 	if s := verifSched; s != nil {
 		s.Yield(point, enabled)
 	}
+}
+
+// verifYieldAt / verifYieldCh name the listener url / channel id in the hook point ("l.close@url", "h.close@7").
+func verifYieldAt(point string, at string) { verifYield(point+"@"+at, nil) }
+func verifYieldCh(point string, ch Channel) {
+	verifYield(point+"@"+strconv.FormatInt(ch.ID(), 10), nil)
 }
